@@ -15,10 +15,10 @@ pub fn property() -> Property {
             "element equality is byte equality of the canonical encoding".into(),
         ],
         subchecks: vec![
-            SubCheck { name: "sets", kind: Kind::Tape { quick: 400_000, thorough: 20_000_000, max_len: 200 }, run: sets },
-            SubCheck { name: "witness_set", kind: Kind::Tape { quick: 100_000, thorough: 5_000_000, max_len: 200 }, run: witness_set_case },
-            SubCheck { name: "assets", kind: Kind::Tape { quick: 200_000, thorough: 10_000_000, max_len: 200 }, run: assets_case },
-            SubCheck { name: "rebuild", kind: Kind::Tape { quick: 30_000, thorough: 1_500_000, max_len: 500 }, run: super::builder::c16_rebuild_case },
+            SubCheck { name: "sets", kind: Kind::Tape { quick: 2_000_000, thorough: 30_000_000, max_len: 200 }, run: sets },
+            SubCheck { name: "witness_set", kind: Kind::Tape { quick: 500_000, thorough: 10_000_000, max_len: 200 }, run: witness_set_case },
+            SubCheck { name: "assets", kind: Kind::Tape { quick: 1_000_000, thorough: 20_000_000, max_len: 200 }, run: assets_case },
+            SubCheck { name: "rebuild", kind: Kind::Tape { quick: 300_000, thorough: 6_000_000, max_len: 500 }, run: super::builder::c16_rebuild_case },
         ],
         crash_prone: false,
         max_reject_fraction: 0.1,
